@@ -55,6 +55,26 @@ EXTRA.update({
         ["add", "g", ["camp", 1.0, ["blackman_max", E("var", "low"), -0.05], 0.0]],
         ["add", "g", ["cdet", ["const", 16, 1.0], E("var", "low"), 0.0]]]),
 })
+EXTRA.update({
+    # a detuning map configured (and used) BEFORE the sequence becomes parametrized, on a mappable register of which only two
+    # of the three declared qubits are mapped at build time: the DMM addresses the atoms of the built register
+    "mappable_dmm": dict(device="mock", reg="mappable3", direct_reg="mapped3", qubits={"q0": 1, "q1": 4},
+                         qubits_alt={"q0": 2, "q1": 5}, direct_reg_alt="mapped3b", vars=[("x", "float", 1)], prog=[
+        ["declare", "g", "rydberg_global"], ["config_dmap_traps", {1: 1.0, 4: 0.5, 2: 0.25, 5: 0.125}, "dmm_0"],
+        ["add_dmm", "dmm_0", ["const", 16, -1.0]],
+        ["add", "g", ["cp", 20, E("var", "x"), 0.0, 0.0]],
+        ["add_dmm", "dmm_0", ["ramp", 16, E("neg", ["var", "x"]), E("div", ["neg", ["var", "x"]], 2.0)]]]),
+    # every declared qubit mapped, the mapping written in another order than the declaration: indices follow the declaration
+    "mappable_index_full": dict(device="mock", reg="mappable3", direct_reg="mapped3full", qubits={"q2": 5, "q0": 1, "q1": 4},
+                                vars=[("a", "float", 1), ("t", "int", 2)], index_values=[2, 0], prog=[
+        ["declare", "l", "rydberg_local", "q0"],
+        ["add", "l", ["cp", 16, E("var", "a"), 0.0, 0.25]],
+        ["target_index", "l", E("item", "t", 0)],
+        ["add", "l", ["cp", 12, 1.0, 0.0, 0.0]],
+        ["phase_shift_index", E("var", "a"), [1], "ground-rydberg"],
+        ["target_index", "l", E("item", "t", 1)],
+        ["add", "l", ["cp", 12, 1.0, E("neg", ["var", "a"]), 0.0]]]),
+})
 TEMPLATES = dict(c04.PARAM_PROGRAMS)
 TEMPLATES.update(EXTRA)
 
